@@ -126,7 +126,7 @@ PROPS = {
         'theorems': ['Cqos.C03.jstep_inv', 'Cqos.C03.jrun_inv', 'Cqos.C03.c03_concat', 'Cqos.C03.c03_prefix',
                      'Cqos.C03.c03_nonempty', 'Cqos.C03.c03_join_le', 'Cqos.C03.c03_unite_big', 'Cqos.Facts.glueJoin', 'Cqos.Facts.ctorsJoin'],
         'runs': [{'cmd': 'jstepper', 'args': ['-family', 'mixed']},
-                 {'cmd': 'blackbox', 'args': ['-scenario', 'join']}],
+                 {'cmd': 'blackbox', 'args': ['-scenario', 'join,joinshared']}],
         'monitor_prefix': ['C03'],
         'level': 'proof',
         'level_text': ('Lean theorems by induction over ARBITRARY action lists of the join/unite machine (items or slices of '
@@ -233,9 +233,9 @@ PROPS = {
         'assumptions': [],
     },
     'C04': {
-        'lean_targets': ['Cqos.Props.C04', 'Cqos.Facts.GlueLimit', 'Cqos.Facts.CtorsLimit'],
+        'lean_targets': ['Cqos.Props.C04', 'Cqos.Facts.GlueLimit', 'Cqos.Facts.CtorsLimit', 'Cqos.Props.C04r', 'Cqos.Props.C04p'],
         'facts': True,
-        'theorems': ['Cqos.C04.tstep_inv', 'Cqos.C04.trun_inv', 'Cqos.C04.c04_item_time', 'Cqos.C04.c04_cumulative',
+        'theorems': ['Cqos.C04.binv_step', 'Cqos.C04.c04_receive_window_prompt', 'Cqos.C04.c04_receive_side_window_fails', 'Cqos.C04.tstep_inv', 'Cqos.C04.trun_inv', 'Cqos.C04.c04_item_time', 'Cqos.C04.c04_cumulative',
                      'Cqos.C04.c04_batches', 'Cqos.C04.wstep_inv', 'Cqos.C04.c04_window', 'Cqos.C04.c04_window_count',
                      'Cqos.C04.c04_sent_sorted', 'Cqos.Facts.glueLimit', 'Cqos.Facts.ctorsLimit'],
         'runs': [{'cmd': 'lstepper', 'args': ['-family', 'mixed']},
@@ -247,7 +247,7 @@ PROPS = {
                        'Quantity*(floor((T-t0)/Interval)+1) elements have left by reading T; a batch forwards at most Quantity '
                        'elements; batch starts are Interval apart and element i leaves between the starts of batches floor(i/Q) and '
                        'floor(i/Q)+1, hence for every a and W at most Quantity*(floor(W/Interval)+2) elements left at a reading in '
-                       '[a, a+W] (c04_window_count). The runtime assumptions (monotone clock; time.Sleep(d) returns no earlier than d) are enabling '
+                       '[a, a+W] (c04_window_count); composed with the FIFO output buffer (any capacity) and a consumer that received every element within delta of its send, at most Quantity*(floor((W+delta)/Interval)+2) elements are RECEIVED in any window of length W (c04_receive_window_prompt). The runtime assumptions (monotone clock; time.Sleep(d) returns no earlier than d) are enabling '
                        'conditions of the machine. pass() and delay() are tied by the stepper (delay measured never to return early)'),
         'level_note': ('partial: ClockOK is assumed of the Go runtime; the theorems speak of the completion of the discipline\'s send. At the '
                        'RECEIVING side the window clause fails for a consumer that pauses (the output buffer, capacity 1+cap(input), is received '
@@ -326,12 +326,13 @@ PROPS = {
         'assumptions': ['H and totals < 2^63 (the unsigned difference after-before does not wrap onto the dividend)'],
     },
     'C07': {
-        'lean_targets': ['Cqos.Props.C07', 'Cqos.Props.C07p', 'Cqos.Props.C07t', 'Cqos.Props.C01s', 'Cqos.Facts.GluePrioV2', 'Cqos.Facts.GluePrioV1', 'Cqos.Props.C16s'],
+        'lean_targets': ['Cqos.Props.C07', 'Cqos.Props.C07p', 'Cqos.Props.C07g', 'Cqos.Props.C07t', 'Cqos.Props.C01s', 'Cqos.Facts.GluePrioV2', 'Cqos.Facts.GluePrioV1', 'Cqos.Props.C16s'],
         'facts': True,
         'theorems': ['Cqos.C07.tinv_step', 'Cqos.C07.tinv_run', 'Cqos.C07.c07_v2_only_then', 'Cqos.C07.c07_v1_graceful_only_then',
                      'Cqos.C07.stopped_false_v2', 'Cqos.C07.c07_no_error_calc', 'Cqos.C07.c07_no_error_recalc',
                      'Cqos.C15.c15_drain_progress', 'Cqos.C07.c07_prompt_step', 'Cqos.C07.c07_prompt',
                      'Cqos.C07.c07_prompt_reachable', 'Cqos.C07.c07_prompt_unique', 'Cqos.C07.v2_static_run',
+                     'Cqos.C07.c07_graceful_step', 'Cqos.C07.c07_graceful_prompt', 'Cqos.C07.wg_step', 'Cqos.C07.c07_graceful_prompt_reachable', 'Cqos.C07.c07_v1_zero_share_graceful_hangs',
                      'Cqos.C07.step_chans', 'Cqos.C07.quiesce_step', 'Cqos.C07.c07_quiescible', 'Cqos.C07.c07_terminable', 'Cqos.Facts.gluePrioV2', 'Cqos.Facts.gluePrioV1', 'Cqos.C01.c07_simple_v2', 'Cqos.SimpleV1.c19_simple_completed'],
         'runs': [{'cmd': 'stepper', 'args': ['-family', 'terminate']}, {'cmd': 'stepper', 'args': ['-family', 'mixed']},
                  {'cmd': 'stepper', 'args': ['-family', 'dynamic']},
@@ -346,10 +347,10 @@ PROPS = {
                        'flight and no release is outstanding - whatever the control point - the discipline reaches done by its own '
                        'steps alone within 5n+12 of them (no release, arrival or timer needed), and what is enabled there is only '
                        'that step, irrelevant environment actions, or the interrupter tick winning Go\'s select on an unbuffered '
-                       'closed input (c07_prompt_reachable, c07_prompt_unique). Termination stays reachable (c07_terminable): from EVERY reachable v2 state, '
+                       'closed input (c07_prompt_reachable, c07_prompt_unique). Promptness (v1, GracefulStop): the same for EVERY state reachable from the v1 constructor by any action list (arrivals, feedbacks, AddInput/RemoveInput) in which GracefulStop() was called, under the hypothesis that the shares in force add up to H and every registered priority has at least one handler - done within 5n+13 own steps (c07_graceful_prompt_reachable); without that hypothesis it is false of model and code (c07_v1_zero_share_graceful_hangs = known finding F1b). Termination stays reachable (c07_terminable): from EVERY reachable v2 state, '
                        'once all registered inputs are closed, some continuation of handlers\' releases and own steps ends in done; and quiescence '
                        '(nothing queued on undrained inputs, nothing in flight, no release unread) is reachable from every state (c07_quiescible). Tied by the stepper (isDrainedInputs, waitZeroActual, base on closing/closed inputs)'),
-        'level_note': 'partial: the wall-clock length of a step and the select choice on an unbuffered closed input are runtime matters; v1 promptness of GracefulStop is not stated as a theorem (F1 shows it false for zero-share configurations); ' + 'trusted: correspondence by differential stepping (exact equality of actual/tactic/strategic/priorities/drained/output after each op); unbuffered inputs only open and empty; New/main/loop glue by black-box runs and facts',
+        'level_note': 'partial: the wall-clock length of a step and the select choice on an unbuffered closed input are runtime matters; v1 promptness of GracefulStop is a theorem only under the hypothesis that every registered priority has a share (known finding F1b: false of model and code for zero-share configurations); ' + 'trusted: correspondence by differential stepping (exact equality of actual/tactic/strategic/priorities/drained/output after each op); unbuffered inputs only open and empty; New/main/loop glue by black-box runs and facts',
         'rule': 'stepper families terminate and mixed: inputs closed at different rounds, releases withheld / grouped, graceful',
         'trusted_base': [],
         'assumptions': ['priority keys of the Inputs map are distinct (Go map)'],
@@ -407,7 +408,7 @@ PROPS = {
                      'Cqos.C05.sum_strategic_fair', 'Cqos.C05.sum_strategic_rate',
                      'Cqos.C05.sat_initV1', 'Cqos.C05.c05_share_v1', 'Cqos.C05.c05_full_v1', 'Cqos.Facts.ctorsPrio'],
         'runs': [{'cmd': 'stepper', 'args': ['-family', 'saturated']},
-                 {'cmd': 'blackbox', 'args': ['-scenario', 'saturated']}],
+                 {'cmd': 'blackbox', 'args': ['-scenario', 'saturated,simple1']}],
         'monitor_prefix': ['C05'],
         'level': 'proof',
         'level_text': ('Lean theorems on the scheduler machine (v2 from New; v1 from New as long as there is no Stop/cancel and no '
